@@ -11,7 +11,8 @@ CONSTANTS
   SrcNeedsWs = FALSE
   EmptyRaises = FALSE
   Emit = FALSE
-  Objs = {1, 2}
+  Objs = {o1, o2}
+  OFields = {"src", "bin"}
   Rich = 1
   SharedMemo = FALSE
   EmitObj = FALSE
@@ -21,5 +22,5 @@ INVARIANT MemoSound
 INVARIANT NoGhostMemo
 PROPERTY ResSound
 VIEW OView
-INVARIANT PaletteDecided
+SYMMETRY ObjSym
 CHECK_DEADLOCK FALSE
